@@ -121,8 +121,16 @@ let handle kind c =
                 prop "different-stack-different-counter" (Printf.sprintf "incs %d and %d from different call stacks hit counter %d" i j hi);
               if ki <> kj && hi <> hj && hi >= 0 && hj >= 0 && hi < Array.length sarr && hj < Array.length sarr then begin
                 let (_, fi, ni) = sarr.(hi) and (_, fj, nj) = sarr.(hj) in
-                if blen (encode_raw name fi) <= limit && blen (encode_raw name fj) <= limit && ni = nj then
-                  prop "injective-untruncated" (Printf.sprintf "different call stacks, one name %s" (show_b ni))
+                if blen (encode_raw name fi) <= limit && blen (encode_raw name fj) <= limit && ni = nj then begin
+                  (* equal frames for different pcs: the runtime symboliser is not injective (known
+                     finding: instantiations of a generic function are all named F[...]);
+                     different frames with one name would be a collision of the rendering itself *)
+                  if fi = fj then
+                    prop "symboliser-not-injective"
+                      (Printf.sprintf "different call stacks (different pcs, identical runtime frames), one counter name %s" (show_b ni))
+                  else
+                    prop "injective-untruncated" (Printf.sprintf "different call stacks, one name %s" (show_b ni))
+                end
               end
             end) arr) arr
   | k -> diff "unknown-case-kind" ~model:k ~impl:"-"
